@@ -2,21 +2,23 @@
 VARIANT = "san"
 RULE = "see stats"
 PARTIAL = [
-    "inv_init: only `fromIspdCircuit c = ok s -> check s` is proved (`inv_init_partial`); that the constructed state "
-    "satisfies the full `Inv` (link symmetry, y on row, positive widths) and has every optimised cell placed is stated "
-    "(`inv_init_full_statement`) and evaluated by the driver (decidable `Inv`) on every explored instance, not proved for all circuits",
-    "inv_legal: `inv_legal_partial` gives per placed cell: valid allowed row, y on the row, valid orientation, no overlap with "
-    "its predecessor/successor, row ends for the first/last cell; non-overlap of *any* two cells of a row (transitivity along "
-    "the links) and legality of the exported circuit against `computeRows` are stated (`inv_legal_full_statement`), supported by "
-    "the direct oracle vc::checkLegal in every callback, not proved",
-    "clause 'never fails on a circuit that legalization alone accepts' (`fromIspdCircuit` succeeds on every legal placement, and "
-    "canPlace succeeds inside swap/insert) is not proved; direct oracle only (placeDetailed must neither throw nor abort whenever "
-    "legalize alone succeeded and returned a legal placement)",
+    "clause 'never fails on a circuit that legalization alone accepts': proved for the constructor (`fromCircuit_ok_of_legal`: "
+    "C01 domain + C01 `Legal` + `OrientLegal` => `fromIspdCircuit` returns normally) and for the primitives (`swap_never_throws`, "
+    "`insert_never_throws`: a move accepted by canSwap/canInsert is carried out, canPlace inside included).  Not proved: "
+    "(a) `OrientLegal` of legalization's result (each one-row cell has the orientation its row demands) is C04's clause and an "
+    "explicit hypothesis here, C01's `Legal` does not contain it; (b) that the optimiser's loops (runSwaps/runInserts/runShifts/"
+    "RowReordering and the incremental net model) call the primitives only with arguments inside the contract is tied by the "
+    "hook-H3 history replay + the direct oracle (placeDetailed must neither throw nor abort whenever legalize alone succeeded "
+    "and returned a legal placement), not proved",
+    "`inv_init`, `inv_legal`, `init_of_legal` assume that no movable cell carries the orientation INVALID (the model's `Inv` "
+    "demands it of optimised cells; `check()` does not test it for cells without row polarity); C01's domain does not state it",
     "lemon NetworkSimplex returning potentials that satisfy the arc constraints is assumed: the model's `shift` re-checks every "
     "update, the code does not; a violation would be caught on explored runs (history replay + legality oracle), not excluded for all",
     "that the optimiser's loops only perform the modelled primitive moves is tied by the hook-H3 history replay on explored runs, "
     "not proved; RowReordering's contract (registered cells are placed optimised cells, predecessors stay placed) is checked "
     "dynamically by the model (`Err.guard`) rather than derived from addCells",
+    "`inv_legal` speaks about the model's `exportPlacement` of any reachable model state; that each Detailed callback exposes "
+    "exactly such a state is the history-replay tie (model export == exposed placement at every callback and on return)",
 ]
 ASSUMPTIONS = [
     "lemon::NetworkSimplex returns feasible potentials (shift passes)",
@@ -24,15 +26,23 @@ ASSUMPTIONS = [
     "C++ int arithmetic modelled as unbounded Int; std::vector as total functions read only inside their size on Inv states",
     "std::sort of rows / of the cells of a row: keys are distinct on the domain (disjoint rows, positive widths)",
 ]
-LEVEL_TEXT = ("Lean 4 theorems over an executable model of DetailedPlacement's doubly linked row lists: unplace/place (pointer "
-              "surgery included), swap (3 branches), insert (Int.tdiv midpoints), checked shift and reorder write-back all preserve "
-              "the decidable invariant Inv (= every test of DetailedPlacement::check() + link symmetry + orientation != INVALID + y "
-              "on row + positive widths); hence every state reachable by any move sequence with arbitrary arguments satisfies it "
-              "(inv_run); ignored cells (multi-row cells, macros, fixed cells) keep x/y/orientation along every history "
-              "(ignored_frame).  Construction and whole-circuit legality are partial (see partial_clauses).  The model is tied to the "
-              "C++ by a differential stream on the public API (state compared after every operation) and, with hook H3, by replaying "
-              "the optimiser's move history of real Circuit::placeDetailed runs; the direct oracle checks legality in every Detailed "
-              "callback and on return, that ignored cells do not move, and that placeDetailed never fails after legalize succeeded")
+LEVEL_TEXT = ("Lean 4 theorems over an executable model of DetailedPlacement's doubly linked row lists.  Construction: whatever "
+              "fromIspdCircuit returns satisfies the decidable invariant Inv (= every test of DetailedPlacement::check() + link "
+              "symmetry + orientation != INVALID + y on row + positive widths) with every optimised cell placed (inv_init), and on a "
+              "circuit of C01's domain that is legal in C01's sense with row-conform orientations the constructor does not fail "
+              "(fromCircuit_ok_of_legal: upper_bound lookup in the sorted free segments, overlap test, final check()).  Moves: "
+              "unplace/place (pointer surgery included), swap (3 branches), insert (Int.tdiv midpoints), checked shift and reorder "
+              "write-back all preserve Inv, hence every state reachable by any move sequence with arbitrary arguments satisfies it "
+              "(inv_run); feasible swaps/inserts are carried out without exception (swap_never_throws, insert_never_throws); ignored "
+              "cells (multi-row cells, macros, fixed cells) keep x/y/orientation along every history (ignored_frame).  Legality: "
+              "every state reached from the constructor's state of a legal circuit by any accepted history exports a circuit that is "
+              "legal in C01's sense (inv_legal: order along the links is transitive, segments are disjoint free space, unoptimised "
+              "cells were obstacles, turn status never changes).  The model is tied to the C++ by a differential stream on the "
+              "public API (state compared and Inv evaluated after every operation) and, with hook H3, by replaying the optimiser's "
+              "move history of real Circuit::placeDetailed runs (Inv evaluated after every replayed move); the direct oracle checks "
+              "legality in every Detailed callback and on return, that ignored cells do not move, and that placeDetailed never fails "
+              "after legalize succeeded; thorough tier: exhaustive enumeration of all feasible swap/insert sequences of length <= 4 "
+              "on small instances through the real API")
 LEVEL_NOTE = ("Trusted: Lean kernel (propext/Classical.choice/Quot.sound), the hand-written model's tie to the code (differential, "
               "bounded by the generator), lemon NetworkSimplex, boost::polygon via the Freespace model, the harness' legality oracle.")
 TECHNIQUE = "Lean 4 proof (invariant over move histories) + primitives correspondence + history replay + end-to-end legality oracle"
